@@ -130,6 +130,15 @@ func main() {
 		}
 		return
 	}
+	if os.Getenv("AVROCHECK_WA") != "" {
+		for _, ct := range P.CodecTypes() {
+			for _, m := range []string{"Read", "Skip", "Write"} {
+				n, probs, _ := methodAutomaton(P, ct.M[m], m, false)
+				fmt.Printf("%-30s %-5s %v %v\n", ct.Name, m, n.words(6, 12), probs)
+			}
+		}
+		return
+	}
 	if *list {
 		for _, ct := range P.CodecTypes() {
 			fmt.Printf("%-34s ptr=%v", ct.Name, ct.Ptr)
